@@ -504,6 +504,21 @@ class Instance:
             elif st[0] in ('b', 'nb'): self.regs.add(st[1][1])
         for kind, clk, st in mod.always:
             if kind != 'comb': walk_st(st)
+        # a procedural assignment needs a variable (reg / integer): a net assigned in an always block has a driver of the wrong kind
+        assigned_proc = set(self.regs)
+        def walk_any(st):
+            if st[0] == 'block': [walk_any(x) for x in st[1]]
+            elif st[0] == 'if':
+                walk_any(st[2]); st[3] and walk_any(st[3])
+            elif st[0] == 'case':
+                [walk_any(x) for _, x in st[2]]; st[3] and walk_any(st[3])
+            elif st[0] in ('b', 'nb'): assigned_proc.add(st[1][1])
+        for kind, clk, st in mod.always: walk_any(st)
+        for n in sorted(assigned_proc):
+            d = mod.decls.get(n)
+            if d is not None and d['kind'] == 'wire':
+                msg = 'net %s is assigned in an always block of module %s (a procedural assignment needs a reg)' % (n, mod.name)
+                if msg not in design.errors: design.errors.append(msg)
         for n in self.regs:
             d = mod.decls.get(n)
             if d is None: continue
